@@ -62,6 +62,10 @@ def run_family(binary, family, tier, seed, timeout=900):
             res["reported"].append(d["mismatch"])
         elif d.get("family") == family:
             summary = d
+    if summary is not None and summary.get("mismatches", 0) > 0 and not res["reported"]:
+        res["status"] = "error"
+        res["detail"] = "mismatches were counted but none could be read back (output not JSON?)"
+        return res
     if summary is None or p.returncode not in (0, 1):
         res["status"] = "error"
         res["detail"] = (p.stderr or p.stdout)[-600:]
